@@ -19,7 +19,7 @@ import (
 )
 
 var contextFreeMutants = []string{"height", "parent", "ts-early", "ts-future", "sig-wrong-slot", "sig-garbage",
-	"merkle", "tx-unbalanced", "coinbase-amount", "coinbase-missing", "coinbase-not-first", "coinbase-extra-output", "coinbase-wrong-reward"}
+	"merkle", "tx-unbalanced", "coinbase-amount", "coinbase-missing", "coinbase-not-first", "coinbase-extra-output", "coinbase-wrong-reward", "coinbase-old-epoch-table"}
 var contextMutants = []string{"spend-missing", "double-spend-cross", "double-spend-inblock", "immature-coinbase", "locked-vote", "double-spend-parent"}
 
 // defMutant builds a child of `parent` that violates exactly one rule. Returns "" when the
@@ -85,6 +85,35 @@ func (nc *nodeCase) defMutant(parent, kind string) string {
 			wrong[k] = v + 1
 		}
 		cb = coinbaseTx(height, byte(rng.Intn(200)), wrong, nc.env.E)
+		txs[0] = cb
+		bad = "coinbase"
+	case "coinbase-old-epoch-table":
+		// the first block of an epoch pays, exactly, the reward table of the epoch BEFORE the
+		// previous one (what a stale "previous checkpoint" lookup hands to the reward check)
+		if height%nc.env.E != 1 || height <= nc.env.E+1 {
+			nc.c.Count("old-table:parent-not-epoch-end")
+			return ""
+		}
+		anc := nc.ancestors(parent)
+		if uint64(len(anc)) <= nc.env.E {
+			return ""
+		}
+		// the nearest older epoch whose table differs (equal tables make the block valid)
+		var oldRewards map[string]uint64
+		for k := nc.env.E; k < uint64(len(anc)) && oldRewards == nil; k += nc.env.E {
+			oh := nc.nm.blocks[anc[k]].Hash()
+			nc.env.useOutsiderKey()
+			old, err := nc.ref.chain.PrevCheckpointByPrevHash(&oh)
+			nc.env.useLocalKey()
+			if err == nil && len(old.Rewards) > 0 && fmt.Sprint(old.Rewards) != fmt.Sprint(rewards) {
+				oldRewards = old.Rewards
+			}
+		}
+		if oldRewards == nil {
+			nc.c.Count("old-table:all-older-tables-equal")
+			return ""
+		}
+		cb = coinbaseTx(height, byte(rng.Intn(200)), oldRewards, nc.env.E)
 		txs[0] = cb
 		bad = "coinbase"
 	case "coinbase-missing":
@@ -474,6 +503,15 @@ func genCaseRules(c *Ctx, mode string) {
 			} else {
 				kind = contextMutants[rng.Intn(len(contextMutants))]
 			}
+			if kind == "coinbase-old-epoch-table" || kind == "coinbase-wrong-reward" {
+				// these need a parent that ends an epoch: take the latest valid tip that does
+				for i := len(validTips) - 1; i >= 0; i-- {
+					if h := nc.nm.blocks[validTips[i]].Height; h > 0 && h%E == 0 {
+						parent = validTips[i]
+						break
+					}
+				}
+			}
 			m := nc.defMutant(parent, kind)
 			if m == "" {
 				c.Count("mutant-not-applicable:" + kind)
@@ -625,6 +663,50 @@ func genCaseRules(c *Ctx, mode string) {
 					}
 					validTips = append(validTips, tip)
 				}
+			}
+		}
+	}
+	// stale-reward-table scenario: an epoch with fee-paying transactions is completed, a valid
+	// first block of the next epoch is connected (whatever the node caches per epoch-end block is
+	// now primed), then a SIBLING first block arrives that pays, exactly, an older epoch's table
+	if rng.Intn(2) == 0 && !nc.dead {
+		tip := validTips[len(validTips)-1]
+		okS := true
+		paid := false
+		for i := 0; i < int(2*E) && okS; i++ {
+			if h := nc.nm.blocks[tip].Height; h%E == 0 && paid {
+				break
+			}
+			var txs []*txInfo
+			if h := nc.nm.blocks[tip].Height; h%E != 0 || !paid {
+				for try := 0; try < 4 && len(txs) == 0; try++ {
+					txs = nc.randomTxs(tip)
+				}
+			}
+			nb := nc.defBlock(tip, 0, 8, txs)
+			if nb == "" {
+				okS = false
+				break
+			}
+			if len(txs) > 0 {
+				paid = true
+			}
+			send(nb)
+			tip = nb
+		}
+		if okS && paid && nc.nm.blocks[tip].Height%E == 0 {
+			if v1 := nc.defBlock(tip, 0, 8, nil); v1 != "" {
+				send(v1)
+				nc.sut.quiesce()
+				if m := nc.defMutant(tip, "coinbase-old-epoch-table"); m != "" {
+					c.Count("mutant:coinbase-old-epoch-table")
+					c.Count("stale-reward-table-scenarios")
+					send(m)
+					if ch := nc.defChildOfMutant(m); ch != "" {
+						send(ch)
+					}
+				}
+				validTips = append(validTips, v1)
 			}
 		}
 	}
